@@ -5,7 +5,13 @@
 //    poisoned (AddressSanitizer) memory, see c07_guard.h; the byte before it is poisoned too when align = 0.  "<capacity>/<real>": the framer is TOLD capacity, the block has real bytes
 //    (used to exercise the 2^31 clamp without allocating 2 GiB).
 // M: internally allocated buffer (constructor with a capacity only).
-// Every OnData() chunk is copied into its own exact-size heap block (over-reads of the caller's data are
+// Optional first op token O<bits>: 1 = WarnOnError(true), 2 = std::function callback instead of the raw one (FusionEngine only),
+//   4 = the callback calls Reset() re-entrantly (only memory safety is judged for such lines).
+// BS,<capacity>,<align>: SetBuffer() again on the SAME user memory as the last user buffer (capacity <= its size).
+// Callback flag bits: +4 payload != header + 24, +8 wrong context pointer, +16 message not inside a buffer given to the framer.
+// A chunk whose bytes differ after the call is flagged INMOD (the framer must not write to the caller's data).
+// Every OnData() chunk is copied into its own exact-size heap block (ending exactly at the block end, starting at
+// a varying alignment) (over-reads of the caller's data are
 // reported).  AddressSanitizer runs in recover mode; a report during an operation is printed as flag ASAN.
 // Output: one line, segments joined by '|': C;adv  R;adv  B;adv  D;ret;cbs;decoded;errors;flag;adv
 //   cbs = '-' | 0:hex(header ++ payload):(header address mod 4) + 4*(payload != header + 24)[,...]
@@ -42,6 +48,15 @@ static volatile int asan_hit = 0;
 static void asan_cb(const char*) { asan_hit = 1; }
 
 static const char* HEXD = "0123456789abcdef";
+struct Range { const uint8_t* lo; const uint8_t* hi; };
+static std::vector<Range> g_blocks;          // memory handed to the framer on this line
+static bool g_cb_resets = false;
+static void* g_framer = nullptr;
+static unsigned inside_flag(const void* p, size_t n) {
+  const uint8_t* q = static_cast<const uint8_t*>(p);
+  for (const Range& r : g_blocks) if (q >= r.lo && q + n <= r.hi) return 0;
+  return 16;
+}
 static std::string g_cbs;
 static void on_msg(void* ctx, const MessageHeader& header, const void* payload) {
   if (!g_cbs.empty()) g_cbs.push_back(',');
@@ -51,8 +66,10 @@ static void on_msg(void* ctx, const MessageHeader& header, const void* payload) 
   const uint8_t* q = static_cast<const uint8_t*>(payload);
   for (size_t i = 0; i < header.payload_size_bytes; ++i) { g_cbs.push_back(HEXD[q[i] >> 4]); g_cbs.push_back(HEXD[q[i] & 15]); }
   g_cbs.push_back(':');
-  unsigned pm = (unsigned)(reinterpret_cast<uintptr_t>(&header) & 3) + (q != p + sizeof(MessageHeader) ? 4 : 0) + (ctx != (void*)&g_cbs ? 8 : 0);
+  unsigned pm = (unsigned)(reinterpret_cast<uintptr_t>(&header) & 3) + (q != p + sizeof(MessageHeader) ? 4 : 0) + (ctx != (void*)&g_cbs ? 8 : 0) +
+                inside_flag(p, sizeof(MessageHeader) + header.payload_size_bytes);
   g_cbs += std::to_string(pm);
+  if (g_cb_resets) static_cast<Framer*>(g_framer)->Reset();
 }
 
 // private state is advisory: print -1 when a member no longer exists under that name
@@ -98,22 +115,37 @@ int main() {
     std::string mode, cap, al, tok;
     is >> mode >> cap >> al;
     arena_reset();
+    g_blocks.clear(); g_cb_resets = false;
+    uint8_t* last_user = nullptr; size_t last_user_real = 0; unsigned nchunk = 0;
     std::string out;
     Buf b = parse_buf(cap, al);
     Framer* f;
     asan_hit = 0;
     if (mode == "U") {
       uint8_t* blk = guarded_block(b.real, b.align) - b.align;
+      g_blocks.push_back({blk + b.align, blk + b.align + b.real}); last_user = blk + b.align; last_user_real = b.real;
       f = new Framer(blk + b.align, b.claimed);
     } else {
-      g_guard_new = true;
+      g_guard_new = true; g_last_start = nullptr;
       f = new Framer(b.claimed);
       g_guard_new = false;
+      if (g_last_start) g_blocks.push_back({g_last_start, g_last_start + g_last_len});
     }
+    g_framer = f;
     f->WarnOnError(false);
     f->SetMessageCallback(on_msg, (void*)&g_cbs);
     out = "C;" + adv(*f);
     while (is >> tok) {
+      if (tok[0] == 'O') {
+        unsigned bits = (unsigned)atoi(tok.c_str() + 1);
+        f->WarnOnError((bits & 1) != 0);
+        if (bits & 2) {
+          f->SetMessageCallback((FusionEngineFramer::RawMessageCallback) nullptr, nullptr);
+          f->SetMessageCallback([](const MessageHeader& h, const void* p) { on_msg((void*)&g_cbs, h, p); });
+        }
+        g_cb_resets = (bits & 4) != 0;
+        continue;
+      }
       out.push_back('|');
       asan_hit = 0;
       if (tok[0] == 'R') {
@@ -124,24 +156,32 @@ int main() {
         std::istringstream ts(tok.substr(1));
         std::getline(ts, m, ','); std::getline(ts, c2, ','); std::getline(ts, a2, ',');
         Buf nb = parse_buf(c2, a2);
-        if (m == "U") {
+        if (m == "S" && last_user != nullptr) {
+          f->SetBuffer(last_user, nb.claimed < last_user_real ? nb.claimed : last_user_real);
+        } else if (m == "U" || m == "S") {
           uint8_t* blk = guarded_block(nb.real, nb.align) - nb.align;
+          g_blocks.push_back({blk + nb.align, blk + nb.align + nb.real}); last_user = blk + nb.align; last_user_real = nb.real;
           f->SetBuffer(blk + nb.align, nb.claimed);
         } else {
           g_guard_new = true;
+          g_last_start = nullptr;
           f->SetBuffer(nullptr, nb.claimed);
           g_guard_new = false;
+          if (g_last_start) g_blocks.push_back({g_last_start, g_last_start + g_last_len});
         }
         out += "B;" + adv(*f);
       } else {
         std::vector<uint8_t> d = unhex(tok.substr(1));
-        uint8_t* in = (uint8_t*)malloc(d.size());
+        size_t off = (nchunk++ * 7 + d.size()) & 3;      // start alignment varies, the chunk ends exactly at the block end
+        uint8_t* raw = (uint8_t*)malloc(off + d.size());
+        uint8_t* in = raw + off;
         if (!d.empty()) memcpy(in, d.data(), d.size());
         g_cbs.clear();
         size_t ret = f->OnData(in, d.size());
-        free(in);
+        bool inmod = !d.empty() && memcmp(in, d.data(), d.size()) != 0;
+        free(raw);
         std::ostringstream os;
-        os << "D;" << ret << ';' << (g_cbs.empty() ? "-" : g_cbs) << ";0;0;" << (asan_hit ? "ASAN" : "ok") << ';' << adv(*f);
+        os << "D;" << ret << ';' << (g_cbs.empty() ? "-" : g_cbs) << ";0;0;" << (asan_hit ? "ASAN" : inmod ? "INMOD" : "ok") << ';' << adv(*f);
         out += os.str();
       }
     }
